@@ -147,17 +147,18 @@ def enumerate_configs(lib, feats, tier, rng):
     for i in range(n):                                   # every feature alone
         add(tuple(1 if j == i else 0 for j in range(n)))
     n1 = len(out)
-    if lib == 'wow_world_messages':                      # one flavour x one expansion, nothing else
-        for fl, ex in zip(FLAVOURS, EXPANSIONS):
-            if fl in feats and ex in feats:
-                add(tuple(1 if f in (fl, ex) else 0 for f in feats))
+    if lib == 'wow_world_messages':                      # every flavour x expansion pair, nothing else
+        for fl in FLAVOURS:
+            for ex in EXPANSIONS:
+                if fl in feats and ex in feats:
+                    add(tuple(1 if f in (fl, ex) else 0 for f in feats))
     nfix = len(out)
     tries = 0
     while len(out) < nfix + 4 and tries < 100:           # seeded random extras
         tries += 1
         add(tuple(rng.randrange(2) for _ in range(n)))
     return out, (f'NOT exhaustive: greedy 3-wise covering array ({n3} rows: every on/off setting of every 3 of the {n} features), '
-                 f'each feature alone (+{n1 - n3} sets), one flavour with one expansion (+{nfix - n1} sets), {len(out) - nfix} seeded random sets; {len(out)} of {2 ** n}')
+                 f'each feature alone (+{n1 - n3} sets), every single flavour with every single expansion (+{nfix - n1} sets), {len(out) - nfix} seeded random sets; {len(out)} of {2 ** n}')
 
 
 def est(lib, feats):
@@ -409,7 +410,7 @@ def judge_builds(chk, tasks, feats_of, condition=None):
                 'command': ' '.join(t.cmd()) + '   (cwd = repository root, CARGO_TARGET_DIR = a private directory)',
                 'exit': t.rc, 'diagnostics': '\n\n'.join(error_blocks(t.err))[:12000],
                 'failing_feature_sets': [','.join(x.feats) or '(none)' for x in ts][:80], 'n_failing_feature_sets': len(ts),
-                'minimal_failing_condition': cond,
+                'smallest_condition_separating_failing_from_passing_sets_checked': cond,
                 'rerun': 'python3 check.py C19 --replay <this file>'})
             chk.count('build_' + r, len(ts))
             chk.evaluations += len(ts) - 1
